@@ -203,6 +203,69 @@ def gen_file(path, rel):
                                     kind="del",
                                     func=getattr(fn, "name", "<module>")))
 
+    # omissions inside expressions: one keyword argument of a call, one
+    # element of a display, one operand of an and/or chain
+    def cut(a, b):
+        """remove bsrc[a:b] plus the separator that goes with it"""
+        text = bsrc.decode("utf-8", "replace")
+        return a, b
+    for n in ast.walk(tree):
+        items = None
+        kind = None
+        if isinstance(n, ast.Call) and n.keywords and (
+                len(n.keywords) + len(n.args)) >= 2:
+            items = [k for k in n.keywords if k.arg]
+            allitems = list(n.args) + list(n.keywords)
+            kind = "kwdel"
+        elif isinstance(n, (ast.Tuple, ast.List, ast.Set)) and \
+                len(n.elts) >= 2 and isinstance(
+                    getattr(n, "ctx", ast.Load()), ast.Load):
+            items = list(n.elts)
+            allitems = list(n.elts)
+            kind = "eltdel"
+        elif isinstance(n, ast.Dict) and len(n.keys) >= 2 and all(
+                k is not None for k in n.keys):
+            items = None
+        elif isinstance(n, ast.BoolOp) and len(n.values) >= 2:
+            for i, v in enumerate(n.values):
+                others = [x for j, x in enumerate(n.values) if j != i]
+                a0 = span(n.values[0], starts, bsrc)[0]
+                b0 = span(n.values[-1], starts, bsrc)[1]
+                word = " and " if isinstance(n.op, ast.And) else " or "
+                new = word.join(
+                    bsrc[slice(*span(x, starts, bsrc))].decode("utf-8")
+                    for x in others)
+                if "\n" in bsrc[a0:b0].decode("utf-8"):
+                    new = "(" + new + ")"
+                emit(a0, b0, new, "opdel", n)
+            continue
+        if not items:
+            continue
+        for it in items:
+            idx = allitems.index(it)
+            ia, ib = span(it.value if kind == "kwdel" else it, starts, bsrc)
+            if kind == "kwdel":
+                ia = ia - len(it.arg.encode()) - 1
+                while bsrc[ia:ia + len(it.arg)].decode("utf-8",
+                                                         "replace") != it.arg \
+                        and ia > 0:
+                    ia -= 1
+            if idx + 1 < len(allitems):
+                nx = allitems[idx + 1]
+                na = span(nx.value if isinstance(nx, ast.keyword) else nx,
+                          starts, bsrc)[0]
+                if isinstance(nx, ast.keyword) and nx.arg:
+                    na = na - len(nx.arg.encode()) - 1
+                    while bsrc[na:na + len(nx.arg)].decode(
+                            "utf-8", "replace") != nx.arg and na > 0:
+                        na -= 1
+                emit(ia, na, "", kind, n)
+            elif idx > 0:
+                pv = allitems[idx - 1]
+                pb = span(pv.value if isinstance(pv, ast.keyword) else pv,
+                          starts, bsrc)[1]
+                emit(pb, ib, "", kind, n)
+
     # string literals: generated-code fragments and regular expressions
     FRAG = [(r" is not ", " is "), (r" is not ", " != "), (r" is ", " == "),
             (r" == ", " != "), (r" != ", " == "), (r" and ", " or "),
